@@ -1,4 +1,8 @@
 """C06 - Field and extent bookkeeping equals arithmetic on an infinite zero-padded plane."""
+META = {
+    'level_text': 'Proof, for all shapes (>= 1, either parity, non-square) and all integer offsets of either sign: every extent query is equivalent to its set of integer pixel coordinates; Field.__mul__ is the pointwise product of the embeddings; insert adds exactly the part of the embedding inside the target (all four clipping sides, wholly outside included) and writes nothing else; merge is the sum; boundary is the bounding box for any number of fields (loop invariant). reduce/_merge are proved for collections of 1, 2 and 3 fields with symbolic geometry (bounded in the number of fields only). One-element fields are a recorded known finding; its complement is proved.',
+    'level_note': 'Trusted: lvc encoding of Python/NumPy semantics (slices with wrap-around, broadcasting, views, floor division), numpy library contracts listed in the evidence, z3. Reals idealised (A2) - only the complex product/sum in the embedding clauses depends on it; all index arithmetic is exact integer reasoning.',
+}
 FUNCTIONS = [
     'lentil.extent.array_extent', 'lentil.extent.array_center', 'lentil.extent.intersect',
     'lentil.extent.intersection_extent', 'lentil.extent.intersection_shape',
